@@ -10,9 +10,11 @@ import (
 	"bufio"
 	"bytes"
 	"encoding/json"
+	"fmt"
 	"io"
 	"os"
 	"os/exec"
+	"runtime"
 	"runtime/debug"
 	"strings"
 	"syscall"
@@ -68,9 +70,28 @@ var deaths = 0
 func callWorker(req workerReq) (m map[string]any, death string) {
 	m, death = callWorkerOnce(req, caseTimeout)
 	if death == "timeout" {
-		m, death = callWorkerOnce(req, 4*caseTimeout)
+		m, death = callWorkerOnce(req, retryLimit())
 	}
 	return m, death
+}
+
+// retryLimit: the second chance is four times the per-case limit on an idle machine and grows with the
+// load (runnable processes per processor, /proc/loadavg), up to ten minutes: a round of sixteen goroutines
+// under the race detector next to a hundred other busy processes is slow, not hanging
+func retryLimit() time.Duration {
+	limit := 4 * caseTimeout
+	if b, err := os.ReadFile("/proc/loadavg"); err == nil {
+		var l1 float64
+		if _, err := fmt.Sscan(string(b), &l1); err == nil {
+			if f := l1 / float64(runtime.NumCPU()); f > 1 {
+				limit = time.Duration(float64(limit) * f)
+			}
+		}
+	}
+	if limit > 10*time.Minute {
+		limit = 10 * time.Minute
+	}
+	return limit
 }
 
 func callWorkerOnce(req workerReq, limit time.Duration) (m map[string]any, death string) {
